@@ -33,7 +33,7 @@ package dns
 //@   ensures len(b) == 8 ==> e.KeyLease == b[4]*16777216 + b[5]*65536 + b[6]*256 + b[7]
 // converse direction of C01: packing what was unpacked gives back as many octets (pack's length is a function of
 // KeyLease, see its contract)
-//@   ensures canon: ret0 == nil ==> (e.KeyLease == 0 ? 4 : 8) == len(b)
+//@   ensures canon: ret0 == nil ==> (e.KeyLease == 0 ? 4 : 8) == len(b) [C01]
 
 // EXPIRE: empty, or EXPIRE(4)
 //@ func (*EDNS0_EXPIRE).pack [C01]
@@ -51,7 +51,7 @@ package dns
 //@   ensures len(b) == 0 ==> ret0 == nil
 //@   ensures len(b) != 0 && len(b) != 2 ==> ret0 != nil
 // (decoding into a fresh option, as unpackDataOpt does)
-//@   ensures canon: ret0 == nil && old(e.Timeout) == 0 ==> (e.Timeout == 0 ? 0 : 2) == len(b)
+//@   ensures canon: ret0 == nil && old(e.Timeout) == 0 ==> (e.Timeout == 0 ? 0 : 2) == len(b) [C01]
 
 // EDE: INFO-CODE(2) EXTRA-TEXT
 //@ func (*EDNS0_EDE).pack [C01]
